@@ -292,7 +292,18 @@ def self_validation(prop):
     ridx = json.load(open(os.path.join(rdir, 'index.json'))) if os.path.exists(os.path.join(rdir, 'index.json')) else {}
     for name, meta in sorted(ridx.items()):
         cases.append(('refactor', name, os.path.join(rdir, name + '.patch'), bool(meta.get('reverse'))))
-    for kind, name, patch, reverse in cases:
+    # the sub-agent refactor corpus (x.., y..) is large: the thorough tier of one property runs the hand-written ones and a
+    # deterministic sample of the rest; `tools/selftest_par.py refactors` runs all of them against all properties
+    import hashlib
+    def keep(case):
+        kind, name, patch, reverse = case
+        if kind != 'refactor' or not (name.startswith('x') or name.startswith('y')):
+            return True
+        return int(hashlib.sha1((prop + name).encode()).hexdigest(), 16) % 6 == 0
+    cases = [c for c in cases if keep(c)]
+
+    def run_case(case):
+        kind, name, patch, reverse = case
         tmp = tempfile.mkdtemp(prefix='envstat_selftest_')
         try:
             repo = os.path.join(tmp, 'repo')
@@ -303,21 +314,23 @@ def self_validation(prop):
             subprocess.run(['git', 'init', '-q', '.'], cwd=repo)
             r = subprocess.run(['git', 'apply'] + (['-R'] if reverse else []) + ['-p1', patch], cwd=repo, capture_output=True, text=True)
             if r.returncode != 0:
-                out['skipped'].append({'case': name, 'why': 'patch does not apply to the current tree'})
-                continue
+                return ('skipped', {'case': name, 'why': 'patch does not apply to the current tree'})
             env = dict(os.environ, VERIF_REPO=repo, VERIF_NO_EVIDENCE='1', VERIF_TIER='quick')
             o = subprocess.run([os.path.join(VERIF, 'check'), prop, 'quick'], capture_output=True, text=True, env=env, cwd=VERIF)
             fired = o.returncode == 1
             if o.returncode not in (0, 1):
-                out['skipped'].append({'case': name, 'why': 'infrastructure exit %d' % o.returncode})
-                continue
+                return ('skipped', {'case': name, 'why': 'infrastructure exit %d' % o.returncode})
             insts = sorted({l.split('  ')[1] for l in o.stdout.splitlines() if 'rule=' in l and '  ' in l})
             if kind == 'mutant':
-                (out['killed'] if fired else out['survived']).append({'case': name, 'instances': insts[:6]})
-            else:
-                (out['noisy'] if fired else out['silent']).append({'case': name, 'instances': insts[:6]})
+                return ('killed' if fired else 'survived', {'case': name, 'instances': insts[:6]})
+            return ('noisy' if fired else 'silent', {'case': name, 'instances': insts[:6]})
         finally:
             shutil.rmtree(tmp, ignore_errors=True)
+
+    from concurrent.futures import ThreadPoolExecutor
+    with ThreadPoolExecutor(max_workers=int(os.environ.get('VERIF_SELFTEST_JOBS', '8'))) as ex:
+        for bucket, item in ex.map(run_case, cases):
+            out[bucket].append(item)
     return out
 
 
